@@ -370,6 +370,11 @@ func genRunCase(r *vh.Rng, name, kind string, layout int, fixed *[4]proj.Date) *
 				rec.Verd = wxNone
 			}
 		}
+		if layout != 2 && fixed == nil && r.Chance(0.03) {
+			if n := len(s.Recs); n > 0 && s.Recs[n-1].Tavg != wxNone {
+				rec.Tavg = wxNone // the mean temperature is an optional value too: mean of the adjacent days
+			}
+		}
 		if w.Date.Z() == badZ {
 			rec.BadDate = true
 			rc.Spec.BadDateLine = w.Date.String()
@@ -613,8 +618,10 @@ func (rc *runCase) checkDays(o *runOut, viol func(sig, what string)) (aligned in
 				viol(fmt.Sprintf("value:%s:fmt%d:%s", name, L, pc), fmt.Sprintf("%v: %s = %v, the record of that date gives %v", date, name, got, want))
 			}
 		}
-		chk("TEMP", d.Temp, rec.Tavg)
-		chk("TEMPdaily", d.TempD, rec.Tavg)
+		if rec.Tavg != wxNone {
+			chk("TEMP", d.Temp, rec.Tavg)
+			chk("TEMPdaily", d.TempD, rec.Tavg)
+		}
 		chk("TMIN", d.Tmin, rec.Tmin)
 		chk("TMINdaily", d.TminD, rec.Tmin)
 		chk("TMAX", d.Tmax, rec.Tmax)
@@ -675,6 +682,10 @@ func (rc *runCase) checkDays(o *runOut, viol func(sig, what string)) (aligned in
 			if !near(got, want) {
 				viol(fmt.Sprintf("value:%s-sentinel-mean:fmt%d:%s", name, L, pc), fmt.Sprintf("%v: %s is missing in the input; used %v, mean of the adjacent days (%v, %v) is %v", date, name, got, val(pv), val(nx), want))
 			}
+		}
+		if rec.Tavg == wxNone {
+			opt("TEMP", true, d.Temp, func(r *wxRec) float64 { return r.Tavg })
+			opt("TEMPdaily", true, d.TempD, func(r *wxRec) float64 { return r.Tavg })
 		}
 		opt("SUND", rc.S.SunCol, d.Sund, func(r *wxRec) float64 { return r.Sun })
 		opt("VERD", rc.S.VerdCol, d.Verd, func(r *wxRec) float64 { return r.Verd })
